@@ -604,19 +604,27 @@ def dpop (d : List (Nat × α)) (k : Nat) : Except PyErr (α × List (Nat × α)
 def dset (d : List (Nat × α)) (k : Nat) (v : α) : List (Nat × α) :=
   if d.any (·.1 = k) then d.map fun e => if e.1 = k then (k, v) else e else d ++ [(k, v)]
 
+/-- body of `for t in range(n - 1):` in `get_index` -/
+def indexStep (n : Nat) (merges : List (Nat × Nat)) (reorder : Bool) (tree : List (Nat × List Nat)) (t : Nat) :
+    Except PyErr (List (Nat × List Nat)) :=
+  match dpop tree (merges.getD t (0, 0)).1 with
+  | .error e => .error e
+  | .ok (left, tree1) =>
+    match dpop tree1 (merges.getD t (0, 0)).2 with
+    | .error e => .error e
+    | .ok (right, tree2) =>
+      if reorder ∧ left.length < right.length then .ok (dset tree2 (n + t) (right ++ left))
+      else .ok (dset tree2 (n + t) (left ++ right))
+
 /-- `get_index(dendrogram, reorder)` : the order of the leaves; `merges` = the first two columns as ints -/
-def getIndex (merges : List (Nat × Nat)) (reorder : Bool) : Except PyErr (List Nat) := do
+def getIndex (merges : List (Nat × Nat)) (reorder : Bool) : Except PyErr (List Nat) :=
   let n := merges.length + 1
-  let tree0 : List (Nat × List Nat) := tab n fun i => (i, [i])
-  let tree ← (List.range (n - 1)).foldlM (fun tree t => do
-    let (i, j) := merges.getD t (0, 0)
-    let (left, tree) ← dpop tree i
-    let (right, tree) ← dpop tree j
-    if reorder ∧ left.length < right.length then pure (dset tree (n + t) (right ++ left))
-    else pure (dset tree (n + t) (left ++ right))) tree0
-  match tree with
-  | (_, l) :: _ => pure l
-  | [] => throw .indexError
+  match (List.range (n - 1)).foldlM (indexStep n merges reorder) (tab n fun i => (i, [i])) with
+  | .error e => .error e
+  | .ok tree =>
+    match tree with
+    | (_, l) :: _ => .ok l
+    | [] => .error .indexError
 
 structure DendroArgs where
   /-- `int(dendrogram[t, 0]), int(dendrogram[t, 1])` -/
